@@ -19,6 +19,7 @@ type advWalker struct {
 	advance  func(ast.Node) bool // node advances the input
 	retreat  func(ast.Node) bool // node puts a rune back
 	badPaths []token.Pos         // ends of paths that reach the back edge without advance
+	onReturn func(pos token.Pos, advanced bool)
 }
 
 type advState struct {
@@ -85,6 +86,12 @@ func (w *advWalker) stmt(s ast.Stmt, st *advState, depth int) {
 	case *ast.DeclStmt, *ast.IncDecStmt, *ast.SendStmt:
 		w.scanExpr(t, st)
 	case *ast.ReturnStmt:
+		if w.onReturn != nil {
+			for _, r := range t.Results {
+				w.scanExpr(r, st)
+			}
+			w.onReturn(t.Pos(), st.adv)
+		}
 		st.dead = true
 	case *ast.BranchStmt:
 		switch t.Tok {
@@ -211,7 +218,7 @@ func ruleR041(c *Ctx) {
 	method := func(name string) *types.Func { return LookupMethod(root, "Tokenizer", name) }
 	next, consume, unread, peek := method("next"), method("consume"), method("unread"), method("peek")
 	read, readSkip, readStr, parseOperator := method("read"), method("readSkip"), method("readStr"), method("parseOperator")
-	for name, m := range map[string]*types.Func{"next": next, "consume": consume, "unread": unread, "peek": peek, "read": read, "readSkip": readSkip, "readStr": readStr, "parseOperator": parseOperator} {
+	for name, m := range map[string]*types.Func{"next": next, "unread": unread, "peek": peek, "read": read, "readSkip": readSkip, "readStr": readStr, "parseOperator": parseOperator} {
 		if m == nil {
 			c.Undecided("parser2.Tokenizer."+name, token.NoPos, "anchor not found")
 			return
@@ -269,10 +276,13 @@ func ruleR041(c *Ctx) {
 		}
 		return true // a decode width (or a sum of widths)
 	}
-	advancing := []*types.Func{next, consume, read, readSkip, readStr, parseOperator}
-	// wrappers: a Tokenizer method that is straight line code, calls an advancing method and never un-reads
-	// advances as well (nextRaw: t.next(false); return t.lastRaw). Derived from the source on every run.
-	for round := 0; round < 2; round++ {
+	advancing := []*types.Func{next, read, readSkip, readStr, parseOperator}
+	if consume != nil {
+		advancing = append(advancing, consume) // may be merged into next
+	}
+	// wrappers: a Tokenizer method advances if on every path to each of its exits the input is advanced
+	// (and not put back afterwards). Derived from the source on every run, to a fixed point.
+	for round := 0; round < 3; round++ {
 		for _, f := range root.Syntax {
 			for _, d := range f.Decls {
 				fd, ok := d.(*ast.FuncDecl)
@@ -286,27 +296,54 @@ func ruleR041(c *Ctx) {
 						known = true
 					}
 				}
-				if known || obj == nil || obj == unread || obj == peek {
+				if known || obj == nil || obj == unread || obj == peek || fd.Name.Name == "run" {
 					continue
 				}
-				straight, adv, ret := true, false, false
-				ast.Inspect(fd.Body, func(x ast.Node) bool {
-					switch t := x.(type) {
-					case *ast.IfStmt, *ast.ForStmt, *ast.RangeStmt, *ast.SwitchStmt, *ast.TypeSwitchStmt, *ast.SelectStmt, *ast.GoStmt, *ast.DeferStmt, *ast.FuncLit, *ast.BranchStmt:
-						straight = false
-					case *ast.CallExpr:
-						if isCallTo(info, t, unread) {
-							ret = true
-						}
-						for _, m := range advancing {
-							if isCallTo(info, t, m) {
-								adv = true
-							}
+				if containsNode(fd.Body, func(x ast.Node) bool {
+					switch x.(type) {
+					case *ast.GoStmt, *ast.DeferStmt, *ast.FuncLit:
+						return true
+					}
+					return false
+				}) {
+					continue
+				}
+				all, some := true, false
+				sw := &advWalker{info: info}
+				sw.advance = func(n ast.Node) bool {
+					if isStrAdvance(n) {
+						return true
+					}
+					call, ok := n.(*ast.CallExpr)
+					if !ok {
+						return false
+					}
+					for _, m := range advancing {
+						if isCallTo(info, call, m) {
+							return true
 						}
 					}
-					return true
-				})
-				if straight && adv && !ret {
+					return false
+				}
+				sw.retreat = func(n ast.Node) bool {
+					call, ok := n.(*ast.CallExpr)
+					return ok && isCallTo(info, call, unread)
+				}
+				sw.onReturn = func(_ token.Pos, adv bool) {
+					some = true
+					if !adv {
+						all = false
+					}
+				}
+				st := advState{}
+				sw.stmts(fd.Body.List, &st, -1)
+				if !st.dead {
+					some = true
+					if !st.adv {
+						all = false
+					}
+				}
+				if all && some {
 					advancing = append(advancing, obj)
 				}
 			}
@@ -376,6 +413,25 @@ func ruleR041(c *Ctx) {
 				}
 				// (i) an exit that is taken at the end of the input
 				exitOK, how := false, ""
+				// form C: the loop condition itself requires remaining input: len(t.str) > k (with the progress shown above the
+				// input shrinks with every iteration, so the condition fails at the latest when it is exhausted)
+				if loop.Cond != nil {
+					var conj []ast.Expr
+					conjuncts(loop.Cond, &conj)
+					for _, cj := range conj {
+						if be, ok := ast.Unparen(cj).(*ast.BinaryExpr); ok && (be.Op == token.GTR || be.Op == token.GEQ || be.Op == token.NEQ) {
+							if call, ok := ast.Unparen(be.X).(*ast.CallExpr); ok && len(call.Args) == 1 {
+								if id, ok := ast.Unparen(call.Fun).(*ast.Ident); ok && id.Name == "len" {
+									if sel, ok := ast.Unparen(call.Args[0]).(*ast.SelectorExpr); ok && sel.Sel.Name == "str" {
+										if be.Op != token.GEQ || !isZeroConst(info, be.Y) {
+											exitOK, how = true, "the loop condition requires remaining input ("+nodeStr(c.Fset, cj)+")"
+										}
+									}
+								}
+							}
+						}
+					}
+				}
 				// form A: an emptiness test len(t.str)==0 whose true edge leaves the loop, on every path that shortens str
 				// form B: comparison of the scanned rune with the sentinel, with an exit on that outcome
 				ast.Inspect(loop.Body, func(x ast.Node) bool {
@@ -917,4 +973,9 @@ func ruleR045(c *Ctx) {
 			return true
 		})
 	}
+}
+
+func isZeroConst(info *types.Info, e ast.Expr) bool {
+	v, ok := constInt(info.Types[e])
+	return ok && v == 0
 }
